@@ -254,7 +254,7 @@ def convert(dtname, text):
             if v is None or v % 2:
                 return ("err",)
             return ("ok", v)
-        if fn == "counting":
+        if fn in ("counting", "reentrant"):
             return ("ok", text)
         if fn == "boom":
             return ("unspec", "non-ValueError-datatype")
